@@ -5,6 +5,8 @@ use vstd::prelude::*;
 use vstd::std_specs::cmp::*;
 use std::collections::{BTreeMap, BTreeSet, HashMap};
 verus! {
+// assumption A-64bit: the compiler runs on a 64-bit target (i64 -> usize casts of non-negative values are exact)
+global size_of usize == 8;
 
 pub mod common {
     use super::*;
@@ -463,6 +465,8 @@ proof fn lemma_div_scalar_intro(m: Seq<Type>, a: TyID, b: TyID)
 // runs `find` (path compression), span_file needs spans_in_range, see assumptions.)
 #[verifier::external_body]
 fn opaque_errs(span: Span) -> (r: Vec<Error>) ensures r.len() == 1, r[0].span() == span { unimplemented!() }
+// D-msg: `unreachable!(..)` with a formatted message becomes the message-free obligation `false`
+macro_rules! unreachable { ($($t:tt)*) => { return vstd::pervasive::unreached() }; }
 macro_rules! err_type_error {
     ($self:expr, $span:expr, $($rest:tt)*) => { Err(opaque_errs($span)) };
 }
@@ -477,12 +481,106 @@ proof fn axiom_constraint_key_order() ensures vstd::std_specs::btree::key_obeys_
 /// deferred constraints (key set) of the class of `i`
 spec fn cons_of(ts: Seq<TypeNode>, i: int) -> Set<Constraint> { ts[rep0(ts, i)].constraints@.dom() }
 
+
+// ---- structural rules of the statement level (C04, C05, C07) --------------------------------------
+/// declarations that are only legal at the top level; the type checker's `statement` treats them
+/// as unreachable (typechecker.rs "Illegal inner statement") - the resolver must never emit them
+/// inside a function body
+spec fn is_decl(s: Statement) -> bool { s is Blob || s is Enum || s is ExternalDefinition }
+
+/// what `statement` needs of its input so that no index / unreachable! can fail: variable ids in
+/// range at the places the statement level touches them, and no nested declaration, through
+/// blocks and loop bodies (statements nested inside *expressions* belong to `expression`)
+spec fn stmt_ok(s: Statement, n: int) -> bool decreases s {
+    match s {
+        Statement::Definition { var, value, .. } => var < n && fn_params_ok(value, n),
+        Statement::Assignment { target, .. } => target_ok(target, n),
+        Statement::Block { statements, .. } => forall|i: int| 0 <= i < statements.len() ==> stmt_ok(#[trigger] statements[i], n),
+        Statement::Loop { body, .. } => forall|i: int| 0 <= i < body.len() ==> stmt_ok(#[trigger] body[i], n),
+        Statement::Blob { .. } | Statement::Enum { .. } | Statement::ExternalDefinition { .. } => false,
+        _ => true,
+    }
+}
+spec fn fn_params_ok(e: Expression, n: int) -> bool {
+    match e {
+        Expression::Function { params, .. } => forall|k: int| 0 <= k < params.len() ==> (#[trigger] params[k]).1 < n,
+        _ => true,
+    }
+}
+spec fn target_ok(e: Expression, n: int) -> bool {
+    match e { Expression::Read { var, .. } => var < n, _ => true }
+}
+/// the assignability table of C04: only mutable variables, field accesses and indexings
+spec fn assignable_ok(vars: Seq<TypeVariable>, e: Expression) -> bool {
+    match e {
+        Expression::Read { var, .. } => vars[var as int].kind is Mutable,
+        Expression::BlobAccess { .. } | Expression::Index { .. } => true,
+        _ => false,
+    }
+}
+/// `break`/`continue` only inside a loop, through blocks and loop bodies (the part of the rule
+/// that lives at the statement level; function bodies and branches are inside `expression`)
+spec fn break_ok(s: Statement, in_loop: bool) -> bool decreases s {
+    match s {
+        Statement::Break(_) | Statement::Continue(_) => in_loop,
+        Statement::Block { statements, .. } => forall|i: int| 0 <= i < statements.len() ==> break_ok(#[trigger] statements[i], in_loop),
+        Statement::Loop { body, .. } => forall|i: int| 0 <= i < body.len() ==> break_ok(#[trigger] body[i], true),
+        _ => true,
+    }
+}
+/// no assignment and no mutable declaration inside a pure function, through blocks and loops
+spec fn pure_ok(s: Statement, in_pure: bool) -> bool decreases s {
+    match s {
+        Statement::Assignment { .. } => !in_pure,
+        Statement::Definition { kind, .. } => !(in_pure && kind is Mutable),
+        Statement::Block { statements, .. } => forall|i: int| 0 <= i < statements.len() ==> pure_ok(#[trigger] statements[i], in_pure),
+        Statement::Loop { body, .. } => forall|i: int| 0 <= i < body.len() ==> pure_ok(#[trigger] body[i], in_pure),
+        _ => true,
+    }
+}
+
+
+impl TypeCtx {
+//@ fn sylt-compiler/src/typechecker.rs new
+//@   in TypeCtx
+//@   props C04 C05
+//@   ret r
+//@   spec
+        ensures !r.inside_loop && !r.inside_pure, //# C04,C05 typectx.new_is_outside_everything
+//@   endspec
+//@ end
+//@ fn sylt-compiler/src/typechecker.rs enter_loop
+//@   in TypeCtx
+//@   props C04 C05
+//@   ret r
+//@   spec
+        ensures r.inside_loop, r.inside_pure == self.inside_pure, //# C04,C05 typectx.enter_loop_keeps_purity
+//@   endspec
+//@ end
+//@ fn sylt-compiler/src/typechecker.rs enter_pure
+//@   in TypeCtx
+//@   props C04 C05
+//@   ret r
+//@   spec
+        ensures r.inside_pure, r.inside_loop == self.inside_loop, //# C04,C05 typectx.enter_pure_keeps_loop
+//@   endspec
+//@ end
+}
 impl TypeChecker {
     /// representation invariant of the type graph
     spec fn inv(&self) -> bool {
         wf_forest(self.types@) && ids_closed(self.types@)
     }
     spec fn valid(&self, a: TyID) -> bool { (a.0 as int) < self.types@.len() }
+    /// every variable's type id is a node of the graph
+    spec fn vars_valid(&self) -> bool {
+        forall|i: int| 0 <= i < self.variables@.len() ==> ((#[trigger] self.variables@[i]).ty.0 as int) < self.types@.len()
+    }
+    spec fn inv2(&self) -> bool { self.inv() && self.vars_valid() }
+    /// the frame every checker function obeys: the graph only grows, the variable table is fixed
+    spec fn grows(&self, old: &TypeChecker) -> bool {
+        self.types@.len() >= old.types@.len() && self.variables == old.variables
+    }
 
 //@ fn sylt-compiler/src/typechecker.rs push_type
 //@   in TypeChecker
@@ -1029,6 +1127,208 @@ proof fn lemma_parents_same_rep(a: Seq<TypeNode>, b: Seq<TypeNode>, h: Seq<nat>,
         Some(p) => { lemma_parents_same_rep(a, b, h, p.0 as int); }
         None => {}
     }
+}
+
+impl TypeChecker {
+// ---- functions left outside (assumed contracts; signatures are taken from the repository) ---------
+//@ fn sylt-compiler/src/typechecker.rs expression
+//@   in TypeChecker
+//@   mode assumed
+//@   ret r
+//@   spec
+        requires old(self).inv2(),
+        ensures final(self).inv2(), final(self).grows(old(self)),
+            r is Ok ==> final(self).valid(r->Ok_0.1) && (r->Ok_0.0 is Some ==> final(self).valid(r->Ok_0.0->Some_0)),
+//@   endspec
+//@ end
+//@ fn sylt-compiler/src/typechecker.rs resolve_type
+//@   in TypeChecker
+//@   mode assumed
+//@   ret r
+//@   spec
+        requires old(self).inv2(),
+        ensures final(self).inv2(), final(self).grows(old(self)), r is Ok ==> final(self).valid(r->Ok_0),
+//@   endspec
+//@ end
+//@ fn sylt-compiler/src/typechecker.rs inner_resolve_type
+//@   in TypeChecker
+//@   mode assumed
+//@   ret r
+//@   spec
+        requires old(self).inv2(),
+        ensures final(self).inv2(), final(self).grows(old(self)), r is Ok ==> final(self).valid(r->Ok_0),
+//@   endspec
+//@ end
+//@ fn sylt-compiler/src/typechecker.rs add_constraint
+//@   in TypeChecker
+//@   mode assumed
+//@   spec
+        requires old(self).inv2(), old(self).valid(a),
+        ensures final(self).inv2(), final(self).grows(old(self)),
+//@   endspec
+//@ end
+//@ fn sylt-compiler/src/typechecker.rs check_constraints
+//@   in TypeChecker
+//@   mode assumed
+//@   ret r
+//@   spec
+        requires old(self).inv2(), old(self).valid(a),
+        ensures final(self).inv2(), final(self).grows(old(self)),
+//@   endspec
+//@ end
+//@ fn sylt-compiler/src/typechecker.rs unify
+//@   in TypeChecker
+//@   mode assumed
+//@   ret r
+//@   spec
+        requires old(self).inv2(), old(self).valid(a), old(self).valid(b),
+        ensures final(self).inv2(), final(self).grows(old(self)), r is Ok ==> final(self).valid(r->Ok_0),
+//@   endspec
+//@ end
+
+//@ fn sylt-compiler/src/typechecker.rs unify_option
+//@   in TypeChecker
+//@   props C07
+//@   ret r
+//@   spec
+        requires old(self).inv2(), a is Some ==> old(self).valid(a->Some_0), b is Some ==> old(self).valid(b->Some_0),
+        ensures final(self).inv2(), final(self).grows(old(self)),
+            r is Ok && r->Ok_0 is Some ==> final(self).valid(r->Ok_0->Some_0),
+            r is Ok ==> (r->Ok_0 is None <==> a is None && b is None), //# C03 unify_option.none_iff_both_none
+//@   endspec
+//@ end
+
+//@ fn sylt-compiler/src/typechecker.rs can_assign
+//@   in TypeChecker
+//@   props C04 C07
+//@   ret r
+//@   spec
+        requires
+            target_ok(*assignable, old(self).variables@.len() as int), //# C07 can_assign.pre.var_in_range
+        ensures
+            final(self).types@ == old(self).types@ && final(self).variables == old(self).variables, //# C04 can_assign.no_state_change
+            r is Ok <==> assignable_ok(old(self).variables@, *assignable), //# C04 can_assign.ok_iff_assignable_table
+            r is Err ==> r->Err_0.len() >= 1 && r->Err_0[0].span() == (if *assignable is Read { assignable->Read_span } else { span }), //# C04 can_assign.error_span
+//@   endspec
+//@ end
+
+//@ fn sylt-compiler/src/typechecker.rs constant_index
+//@   in TypeChecker
+//@   props C05 C07
+//@   ret r
+//@   rewrite rule:R-wild
+//@- Some(ty) => self.unify(span, ctx, *ty, ret).map(|_| ()),
+//@+ Some(ty) => self.unify(span, ctx, *ty, ret).map(|_w| ()),
+//@   why Verus only accepts a variable as closure parameter; naming the ignored argument changes nothing
+//@   endrewrite
+//@   spec
+        requires old(self).inv2(), old(self).valid(a), old(self).valid(ret),
+        ensures final(self).inv2(), final(self).grows(old(self)),
+            (ty_of(old(self).types@, a) is Tuple && index >= ty_of(old(self).types@, a)->Tuple_0.len()) ==> r is Err, //# C05 constant_index.out_of_range_rejected
+            ty_of(old(self).types@, a) is Unknown ==> r is Ok, //# C05 constant_index.unknown_deferred
+            !(ty_of(old(self).types@, a) is Unknown) && !(ty_of(old(self).types@, a) is Tuple) ==> r is Err, //# C05 constant_index.non_tuple_rejected
+            r is Err && !(ty_of(old(self).types@, a) is Tuple) ==> r->Err_0.len() >= 1 && r->Err_0[0].span() == span,
+//@   endspec
+//@   ghost entry
+        proof { lemma_view_members(self.types@, a); }
+//@   endghost
+//@ end
+
+//@ fn sylt-compiler/src/typechecker.rs type_from_function
+//@   in TypeChecker
+//@   props C03 C07
+//@   attr #[verifier::loop_isolation(false)]
+//@   ret r
+//@   spec
+        requires old(self).inv2(),
+            forall|k: int| 0 <= k < params@.len() ==> (#[trigger] params@[k]).1 < old(self).variables@.len(), //# C07 type_from_function.pre.params_in_range
+        ensures final(self).inv2(), final(self).grows(old(self)),
+            r is Ok ==> final(self).valid(r->Ok_0.0) && final(self).valid(r->Ok_0.1),
+            r is Ok ==> ty_of(final(self).types@, r->Ok_0.0) is Function, //# C03 type_from_function.builds_function_type
+            r is Ok ==> ty_of(final(self).types@, r->Ok_0.0)->Function_0.len() == params@.len(), //# C03 type_from_function.arity_is_param_count
+            r is Ok ==> (ty_of(final(self).types@, r->Ok_0.0)->Function_2 is Pure <==> pure) && !(ty_of(final(self).types@, r->Ok_0.0)->Function_2 is Undefined), //# C04 type_from_function.purity_from_literal
+//@   endspec
+//@   loop 1 binder it
+            invariant
+                self.inv2(), self.grows(old(self)),
+                it.seq().len() == params@.len(),
+                forall|k: int| 0 <= k < params@.len() ==> *(#[trigger] it.seq()[k]) == params@[k],
+                args@.len() == it.index@,
+                forall|k: int| 0 <= k < args@.len() ==> self.valid(#[trigger] args@[k]),
+//@   endloop
+//@   ghost before
+//@| let f = self.push_type(Type::Function(args, ret, purity));
+        let ghost nargs = args@.len();
+//@   endghost
+//@   ghost after
+//@| let f = self.push_type(Type::Function(args, ret, purity));
+        proof { lemma_rep0_props(self.types@, f.0 as int); }
+//@   endghost
+//@ end
+
+//@ fn sylt-compiler/src/typechecker.rs definition
+//@   in TypeChecker
+//@   props C04 C07
+//@   ret r
+//@   spec
+        requires old(self).inv2(),
+            *statement is Definition, //# C07 definition.pre.is_definition
+            stmt_ok(*statement, old(self).variables@.len() as int), //# C07 definition.pre.var_in_range
+        ensures final(self).inv2(), final(self).grows(old(self)),
+            r is Ok && r->Ok_0 is Some ==> final(self).valid(r->Ok_0->Some_0),
+            ctx.inside_pure && statement->Definition_kind is Mutable ==> r is Err, //# C04 definition.mutable_in_pure_rejected
+            r is Ok ==> pure_ok(*statement, ctx.inside_pure), //# C04 definition.pure_ok
+//@   endspec
+//@ end
+
+//@ fn sylt-compiler/src/typechecker.rs statement
+//@   in TypeChecker
+//@   props C04 C05 C07
+//@   attr #[verifier::exec_allows_no_decreases_clause]
+//@   ret r
+//@   rewrite rule:D-timed
+//@- let _handle =
+//@-     sylt_macro::timed_handle!("typecheck::statement", line_start = span.line_start);
+//@+ let _handle = ();
+//@   why profiling handle, compiled to () without the `timed` feature
+//@   endrewrite
+//@   spec
+        requires old(self).inv2(),
+            stmt_ok(*statement, old(self).variables@.len() as int), //# C07 statement.pre.no_nested_declaration_and_vars_in_range
+        ensures final(self).inv2(), final(self).grows(old(self)),
+            r is Ok && r->Ok_0 is Some ==> final(self).valid(r->Ok_0->Some_0),
+            (*statement is Break || *statement is Continue) && !ctx.inside_loop ==> r is Err, //# C05 statement.break_outside_loop_rejected
+            *statement is Assignment && ctx.inside_pure ==> r is Err, //# C04 statement.assignment_in_pure_rejected
+            *statement is Assignment && !assignable_ok(old(self).variables@, statement->Assignment_target) ==> r is Err, //# C04 statement.assignment_to_constant_rejected
+            r is Ok ==> break_ok(*statement, ctx.inside_loop), //# C05 statement.break_ok
+            r is Ok ==> pure_ok(*statement, ctx.inside_pure), //# C04 statement.pure_ok
+//@   endspec
+//@ end
+
+//@ fn sylt-compiler/src/typechecker.rs expression_block
+//@   in TypeChecker
+//@   props C04 C05 C07
+//@   attr #[verifier::exec_allows_no_decreases_clause]
+//@   attr #[verifier::loop_isolation(false)]
+//@   ret r
+//@   spec
+        requires old(self).inv2(),
+            forall|i: int| 0 <= i < statements@.len() ==> stmt_ok(#[trigger] statements@[i], old(self).variables@.len() as int), //# C07 expression_block.pre.statements_ok
+        ensures final(self).inv2(), final(self).grows(old(self)),
+            r is Ok && r->Ok_0.0 is Some ==> final(self).valid(r->Ok_0.0->Some_0),
+            r is Ok && r->Ok_0.1 is Some ==> final(self).valid(r->Ok_0.1->Some_0),
+            r is Ok ==> forall|i: int| 0 <= i < statements@.len() ==> break_ok(#[trigger] statements@[i], ctx.inside_loop), //# C05 expression_block.break_ok
+            r is Ok ==> forall|i: int| 0 <= i < statements@.len() ==> pure_ok(#[trigger] statements@[i], ctx.inside_pure), //# C04 expression_block.pure_ok
+//@   endspec
+//@   loop 1 binder it
+            invariant
+                self.inv2(), self.grows(old(self)), it.seq().len() == statements@.len(),
+                forall|k: int| 0 <= k < statements@.len() ==> *(#[trigger] it.seq()[k]) == statements@[k],
+                ret is Some ==> self.valid(ret->Some_0),
+                forall|i: int| 0 <= i < it.index@ ==> break_ok(#[trigger] statements@[i], ctx.inside_loop), //# C05 expression_block.loop.break_ok
+                forall|i: int| 0 <= i < it.index@ ==> pure_ok(#[trigger] statements@[i], ctx.inside_pure), //# C04 expression_block.loop.pure_ok
+//@   endloop
+//@ end
 }
 
 /// after the two `find`s of `union`: the roots are the old representatives
